@@ -558,7 +558,7 @@ Definition w_x : node := [120].
 (* witness 1 (restat leak of the OLD UpdateEdge, [load_dyndep_old]): "rule r {dyndep = dd};
    build out: r in | dd; build other: t" -- the bound edge has no scope of its own, "restat = 1" of
    the dyndep file landed in the file-level scope and the unrelated edge "other" became a restat
-   edge.  Fixed in /repo ("fix: bind dyndep-supplied restat in a scope private to the edge"). *)
+   edge.  Fixed in /repo ("fix: give an edge whose dyndep binding comes from its rule a scope of its own"). *)
 Definition w_leak_graph : graph :=
   mkGraph [mkEdge [w_out] 0 [w_in; w_dd] 1 0 (Some w_dd) NoScope None;
            mkEdge [w_other] 0 [] 0 0 None NoScope None] None.
